@@ -16,7 +16,7 @@ HERE = os.path.dirname(os.path.dirname(os.path.abspath(__file__)))
 # extra checks (besides the seed's own property) that are run against a seed
 ALSO = {
     "C01-a": ["C05", "C16"], "C01-b": ["C03"], "C03-a": ["C01"], "C03-b": ["C13"], "C04-b": ["C07", "C01"], "C05-b": ["C01"],
-    "C06-a": ["C07"], "C07-a": ["C06"], "C10-b": ["C13"], "C14-b": ["C07", "C01"], "C16-a": ["C05"], "C20-a": ["C08"], "C08-a": ["C20"], "C12-p": ["C17"], "C02-r": ["C03", "C17"],
+    "C06-a": ["C07"], "C07-a": ["C06"], "C10-b": ["C13"], "C14-b": ["C07", "C01"], "C16-a": ["C05"], "C20-a": ["C08"], "C08-a": ["C20"], "C12-p": ["C17"], "C02-r": ["C03", "C17"], "C02-t": ["C06"], "C07-t": ["C06"], "C08-t": ["C15"], "C09-s": ["C10"], "C03-t": ["C17"], "C05-t": ["C14"],
 }
 MUTANT_CHECKS = {
     "c02-remove-write-before-check": ["C02"], "c04-remove-c-order": ["C04"],
